@@ -83,6 +83,18 @@ Theorem ACC_C13_mul_then_div : forall (TQ PQ : QFull F64), QLaws TQ -> QLaws PQ 
     B2R 53 1024 (q_amount PQ y') = B2R 53 1024 a * (1 + d1) * (1 + d2) * (1 + d3) * (1 + d4).
 Proof. exact rate_mul_then_div. Qed.
 
+(** ... and in the decimal configuration within an explicit bound *)
+Theorem DEC_C13_mul_then_div : forall (TQ PQ : QFull DEC), QLaws TQ -> QLaws PQ ->
+  (forall x y, q_div TQ x y = HasRefUnit_div TQ x y) -> (forall x y, q_div PQ x y = HasRefUnit_div PQ x y) ->
+  forall (r : rate DEC) (q : Qt PQ) (y : Qt TQ) (y' : Qt PQ),
+  let a := dval (q_amount PQ q) in let t := dval (rt_term_amount r) in let p := dval (rt_per_unit_multiple r) in
+  In (rt_term_unit r) (u_iter TQ) -> In (rt_per_unit r) (u_iter PQ) -> q_unit PQ q = rt_per_unit r ->
+  Amount.Laws.dec_ok (q_amount PQ q) -> Amount.Laws.dec_ok (rt_term_amount r) -> Amount.Laws.dec_ok (rt_per_unit_multiple r) ->
+  Rate_mul TQ PQ r q = Ok y -> tmpl_Div_Qty_Rate TQ PQ y r = Ok y' ->
+  q_unit TQ y = rt_term_unit r /\ q_unit PQ y' = rt_per_unit r /\ t <> 0 /\ p <> 0 /\
+  Rabs (dval (q_amount PQ y') - a) <= half_ulp18 * ((Rabs p + 1) + Rabs p / Rabs t * (Rabs t + 1)).
+Proof. exact rate_mul_then_div_dec. Qed.
+
 Print Assumptions ACC_C13_rate_mul.
 Print Assumptions ACC_C13_qty_div_rate.
 Print Assumptions ACC_C13_ratio_same_unit.
@@ -90,3 +102,4 @@ Print Assumptions DEC_C13_rate_mul.
 Print Assumptions DEC_C13_qty_div_rate.
 Print Assumptions DEC_C13_ratio_same_unit.
 Print Assumptions ACC_C13_mul_then_div.
+Print Assumptions DEC_C13_mul_then_div.
